@@ -10,6 +10,13 @@ COMMON_NOTE = ('Trusted base: z3 4.x/5.1 (python3-vt), the symx forking engine, 
                'reals), sizes beyond the stated bounds, GPU, complex dtypes. ')
 
 CHECKS = {
+ 'C03': dict(
+    text='sum_product followed by back-propagation is executed on the z3-valued tensor model (autograd.Function modelled by per-storage-cell cotangent accumulation; SumProduct.backward, J/J_log, multi_solve(transpose), multi_mv, project run as is) '
+         'with symbolic weights and a symbolic output cotangent; per weight entry the solver decides equality with sum_j c_j dZ_j/dw from forward-mode (dual number) differentiation of the definitional sum-product. Right level: an identity between two '
+         'rational functions of all weights; gradcheck samples one point.',
+    note='Bounds: non-recursive grammars of the C01 families with <=10 weights (shared factors, unreachable factors, duplicate externals, edgeless nodes), Real and Log, three method names. Regimes: positive weights, Real also one zero weight. '
+         'Not decided: gradients through recursive SCCs (the implicit-function clause of the statement) -- the recursive Jacobian systems with symbolic fixed points exceeded the solver budget; they are exercised only by running the repository\'s own gradcheck tests on the model.',
+    technique='SMT equivalence with forward-mode derivatives of the definitional sum-product (z3 NRA)', design='5/C03'),
  'C04': dict(
     text='viterbi() is executed on the z3-valued tensor model with symbolic log-weights; arg-max back-pointers are symbolic integers, so every feasible optimum/tie becomes its own path. Per path the derivation is checked for well-formedness and the '
          'solver decides that the weight of derive() (independent evaluator) equals the definitional maximum over all derivations x assignments (when finite) and the Viterbi-semiring sum_product. Right level: optimality for all weights and all ties is a '
